@@ -54,8 +54,25 @@ def check_visitor_core(model: Model, col, rule: str):
     fallback = [c for c in ast.walk(vg) if isinstance(c, ast.Attribute) and c.attr == "v_Default"]
     col.check(bool(fallback) and all(not any(id(c) == id(x) for lp in loops for x in ast.walk(lp)) for c in fallback), rule, f"{VISITOR}::Visitor.v_Generic falls back to v_Default",
               "v_Default is used only after the whole MRO was tried", "the default handler is not the fallback after the MRO walk", VISITOR, vg)
+    # every exit of v_Generic hands back what the handler (or the default handler) returned: passes that rewrite the tree
+    # replace a child by that value, lowering uses it as the child's IR value (None = "no value")
+    bad_ret = []
+    for r in [n for n in ast.walk(vg) if isinstance(n, ast.Return)]:
+        v = r.value
+        srcs = [v]
+        if isinstance(v, ast.Name):
+            srcs = [n.value for n in ast.walk(vg) if isinstance(n, ast.Assign) and any(isinstance(t, ast.Name) and t.id == v.id for t in n.targets)]
+        if not srcs or not all(isinstance(s, ast.Call) and (last_attr(s) == "v_Default" or isinstance(s.func, ast.Name) or last_attr(s) in ("func", "handler")) for s in srcs):
+            bad_ret.append(unparse(r))
+    col.check(not bad_ret, rule, f"{VISITOR}::Visitor.v_Generic returns the handler's result", "return <result of the handler call>",
+              f"`{bad_ret[0] if bad_ret else ''}` does not return what the (default) handler returned: a node without a handler is reported as its own replacement / value "
+              "(an absent for-condition becomes a branch predicate)", VISITOR, vg)
     # (c) what default traversal re-initialises is nothing a visitor accumulates
     vd = dv.own_method("v_Default")
+    guard = [n for n in ast.walk(vd) if isinstance(n, ast.If) and "hasattr" in unparse(n.test) and "AcceptVisitor" in unparse(n.test)]
+    col.check(bool(guard) and all(any(isinstance(c, ast.Call) and last_attr(c) == "AcceptVisitor" for s in g.body for c in ast.walk(s)) for g in guard), rule,
+              f"{VISITOR}::DefaultVisitor.v_Default only traverses traversable objects", "guarded by hasattr(obj, 'AcceptVisitor')",
+              "default traversal calls AcceptVisitor on whatever it is given: an absent child (None: the empty init clause of a for loop) raises AttributeError", VISITOR, vd)
     reinit = any(isinstance(c, ast.Call) and last_attr(c) == "__init__" for c in ast.walk(vd))
     base_fields = {n.targets[0].attr for m in (vis.own_method("__init__"),) for n in ast.walk(m)
                    if isinstance(n, ast.Assign) and isinstance(n.targets[0], ast.Attribute) and isinstance(n.targets[0].value, ast.Name) and n.targets[0].value.id == m.args.args[0].arg}
